@@ -18,6 +18,19 @@ pub fn ser_case(ctx: &mut Ctx, fields: &[Field], rows: &[Val], label: &str, inje
     let nontrivial = fields.iter().any(|f| matches!(f.data_type, marrow::datatypes::DataType::Struct(_) | marrow::datatypes::DataType::List(_) | marrow::datatypes::DataType::LargeList(_) | marrow::datatypes::DataType::Map(..) | marrow::datatypes::DataType::Union(..) | marrow::datatypes::DataType::FixedSizeList(..) | marrow::datatypes::DataType::Dictionary(..))) || !matches!(out, Out::Ok(_));
     let idx = ctx.add_case(coq, desc, nontrivial);
     if let Out::Panic(p) = &out { ctx.fail(idx, "panic", format!("to_marrow panics: {}", p)); }
+    if let Out::Ok(arrays) = &out {
+        // referees for C03: the array's own data type equals the field's (child names, nullability, metadata, parameters);
+        // arrow-rs accepts the converted array (validate_full)
+        for (f, a) in fields.iter().zip(arrays.iter()) {
+            if a.data_type() != f.data_type { ctx.fail(idx, "data_type_differs", format!("field {:?}: array has {:?}, field declares {:?}", f.name, a.data_type(), f.data_type)); }
+            let conv = guarded(|| arrow_array::ArrayRef::try_from(a.clone()).map_err(|e| e.to_string()));
+            match conv {
+                Out::Ok(ar) => { if let Err(e) = arrow_array::Array::to_data(&*ar).validate_full() { ctx.fail(idx, "arrow_validate_full", format!("field {:?}: {}", f.name, e)); } }
+                Out::Err(e) => ctx.fail(idx, "arrow_conversion_rejects", format!("field {:?}: {}", f.name, e)),
+                Out::Panic(p) => ctx.fail(idx, "arrow_conversion_panics", format!("field {:?}: {}", f.name, p)),
+            }
+        }
+    }
     if let (Some(w), Out::Ok(_)) = (&injected, &out) { ctx.fail(idx, "invalid_value_accepted", format!("injected {} but serialization succeeded", w)); }
     idx
 }
@@ -27,13 +40,16 @@ pub fn run(ctx: &mut Ctx) {
     ctx.shard_size = 120;
     ctx.rule = "random schemas (1-3 top-level fields, depth <= 3, all supported data types, nullable or not) x 0-17 rows in random presentations (integer widths, str/char/number into strings, bytes vs sequences, struct vs map vs tuple records, enum variants, Option/newtype layers, permuted/absent/extra fields); ~20% of the cases carry one injected invalid value (out of range, null into non-nullable, missing/duplicate field, wrong fixed count, unknown variant, wrong kind). Non-trivial = schema has a container or the outcome is not Ok; distinct by (schema, rows, result)".into();
     let n = if ctx.thorough { 20000 } else { 1200 };
-    for _ in 0..n {
+    for i in 0..n {
         let mut rng = ctx.rng.fork();
+        // the second half of the stream stays inside the builder model (Boolean, integers, strings, lists, structs)
+        arrgen::CORE_ONLY.store(i >= n / 2, std::sync::atomic::Ordering::Relaxed);
         let fields = arrgen::gen_schema(&mut rng);
         let nrows = *rng.pick(&[0usize, 1, 1, 2, 3, 7, 8, 9, 17]);
         let inject = rng.chance(1, 5) && nrows > 0;
         let mut inj = Inject { countdown: if inject { rng.below(nrows * 3) as i32 } else { -1 }, what: None };
         let rows: Vec<Val> = (0..nrows).map(|_| arrgen::gen_record(&mut rng, &fields, &mut inj)).collect();
-        ser_case(ctx, &fields, &rows, "random", inj.what.clone());
+        ser_case(ctx, &fields, &rows, if i >= n / 2 { "core" } else { "random" }, inj.what.clone());
     }
+    arrgen::CORE_ONLY.store(false, std::sync::atomic::Ordering::Relaxed);
 }
